@@ -99,7 +99,8 @@ ApiBodies == {"none", "empty", "ok", "notjson", "trunc", "array", "null", "strin
 ApiSpecial == [ start_relay_pull |-> {"url_empty", "url_garbage", "url_noscheme", "url_nopath", "url_onlyapp", "url_badport", "url_rtsp",
                                       "url_rtsp_user", "url_flv", "url_unknown", "url_space", "url_long", "url_ipv6",
                                       "url_q1", "url_q2", "url_q2app", "url_q2root", "url_q3", "url_frag", "url_qonly"},
-                start_rtp_pub |-> {"rtp_port_neg", "rtp_port_big", "rtp_port_1", "rtp_tcp", "rtp_dump", "rtp_empty_name"},
+                start_rtp_pub |-> {"rtp_port_neg", "rtp_port_big", "rtp_port_1", "rtp_tcp", "rtp_dump", "rtp_empty_name",
+                                   "rtp_to_1", "rtp_to_500", "rtp_to_999", "rtp_to_1001", "rtp_to_neg", "rtp_to_max"},
                 add_ip_blacklist |-> {"bl_badip", "bl_neg", "bl_max"},
                 kick_session |-> {"kick_empty", "kick_nostream"} ]
 ApiQueries == {"q_stream", "q_nostream", "q_emptyval", "q_dup", "q_esc", "q_badesc", "q_long", "q_semi"}
